@@ -41,7 +41,7 @@ func runC08(r *vk.Run) {
 		return
 	}
 	formats := []string{"json", "logfmt", "access", "packed", "plain", "mixed"}
-	r.Phase("partition", r.N(1500, 40000), func(c *vk.Case) {
+	r.Phase("partition", r.N(1500, 400000), func(c *vk.Case) {
 		rng := c.Rng
 		n := rng.Range(4, 30)
 		ds := genDataset(rng, formats[c.Idx%len(formats)], n, logT0)
